@@ -104,8 +104,16 @@ def run_scenario(ctx, idx, scn, seed, max_dumps, timeout):
             # event budget: a resumed run that has lost its end-of-run event would otherwise never stop
             ncommits = sum(1 for e in la[marks[k] + 1:] if e[0] == "commit")
             spec_b = {"dump": os.path.join(wa, f"dump_{k}.dat"), "out": os.path.join(wb, "log.json"),
-                      "max_events": ncommits + 25}
+                      "max_events": ncommits + 25, "argv": resume_argv(k)}
             return k, launch("resume", spec_b, timeout)
+
+        def resume_argv(k):
+            # every third dump is resumed with DEBUG logging, every fifth without output handlers
+            if k % 3 == 1:
+                return ["-vv", "--logfile", os.devnull]
+            if k % 5 == 2:
+                return ["--no-output"]
+            return []
         with ThreadPoolExecutor(4) as ex:
             resumed = list(ex.map(resume, picks))
         # The dumped output handlers re-open the ORIGINAL run's '<file>.tmp' and rename it when their run ends, so concurrent
@@ -128,6 +136,12 @@ def run_scenario(ctx, idx, scn, seed, max_dumps, timeout):
                     continue
                 want = la[marks[k] + 1:]
                 got = norm(B["log"])
+                if resume_argv(k):
+                    results.append(("count", "dump_points_resumed_with_" + resume_argv(k)[0].strip("-").replace("-", "_"), 1))
+                if resume_argv(k) == ["--no-output"]:
+                    # nothing is written: only the committed events can be compared
+                    want = [e for e in want if e[0] == "commit"]
+                    got = [e for e in got if e[0] == "commit"]
                 d = first_diff(want, got)
                 results.append(("count", "log_entries_compared", len(want)))
                 if d:
